@@ -27,8 +27,9 @@
 (* category, error identity, return value and timestamp of every output    *)
 (* must be the machine's; each value must lie within n/3 + 3 f32 epsilons *)
 (* (n = samples since the last reset) of the textbook formula evaluated in *)
-(* f64 by the recorder over exactly those samples (PID, integral,          *)
-(* derivative, both filters, the three to-state converters; field `num');  *)
+(* f64 by the recorder over exactly those samples (PID, command PID with   *)
+(* twice the allowance, integral, derivative, both filters, the three      *)
+(* to-state converters; field `num');                                      *)
 (* the twin selected by the reset class, and the                            *)
 (* skip / shift / scale / variant twins, must show the same keys; the      *)
 (* filters must stay between the smallest and largest contributing sample. *)
